@@ -24,10 +24,14 @@ RULE = ("one API call {get_defaults, parse_object(dict|Namespace), parse_string,
         "first appearance, objects of the family alive before the calls first) is reported; argument types also Tuple[Base,int], "
         "Tuple[Tuple[Base,int],str], Tuple[Tuple[Tuple[int,Base],List[Base]],int] (specs up to three tuple levels deep), specs with "
         "dict_kwargs; validate and dump (twice) run on the configuration before the two instantiate calls and a deep identity-aware "
-        "snapshot of it is compared; non-trivial = at least 2 specs. Plus, exhaustively, the 48 'bracket' cases: entry point "
-        "{parse_args with --cfg file, get_defaults / format_help / parse_args with default_config_files, List[int] list file "
-        "(enable_path), parse_env} x directory flavour {plain, symlink, relative, both} x {succeeds, fails midway}: globals and the "
-        "argv list / environ dict before vs after")
+        "snapshot of it is compared; non-trivial = at least 2 specs. Plus, exhaustively, the 56 'bracket' cases: entry point "
+        "{parse_args with --cfg file, get_defaults / format_help / print_help / parse_args with default_config_files, List[int] list "
+        "file (enable_path), parse_env} x directory flavour {plain, symlink, relative, both} x {succeeds, fails midway} on parsers "
+        "that also declare untyped optionals and positionals set by the file: globals, the argv list / environ dict, action.default "
+        "of every declared action and get_defaults() without default config files before vs after. The expected objects of an "
+        "'instantiate twice' case are computed by the harness from the configuration given, the parser defaults and the class "
+        "signatures (table SIG, checked against tie/impl/c08_classes.py), NOT from the parser's output; lazy_instance defaults also "
+        "on Any-typed hints (argument type Any, class Holder)")
 TRUSTED = [
     "Coq 8.16.1 kernel + vm_compute",
     "tie/impl/c08_inst.py + tie/impl/c08_classes.py (walk the built object trees, number identities by first appearance)",
@@ -43,7 +47,8 @@ ASSUMPTIONS = [
     "exception classes are not compared; user-defined objects, threads and C-level state are outside the model",
 ]
 EXHAUSTIVE = {"quick": False, "thorough": False}
-FINDING_CLASSES = {1: "parse-object-adapts-in-place", 2: "container-below-tuple-shared"}
+FINDING_CLASSES = {1: "parse-object-adapts-in-place", 2: "container-below-tuple-shared", 3: "default-below-tuple-shared"}
+# "judge_fixed2": additionally fixes/C08-default-below-tuple-shared.patch applied (instantiation model without guard).
 # "judge": the pinned tree (faithful model, the two finding classes above; class 9 = fails differently from the listed
 # finding => violation).  "judge_fixed": the tree with fixes/C08-container-below-tuple-shared.patch and
 # fixes/C08-parse-object-adapts-in-place.patch applied (model run_op_fixed, no guard, no finding class).
@@ -64,12 +69,16 @@ META = {
         "sub_defaults, os.environ are as before after every call), C08_region_without_finally_leaks, C08_defaults_untouched "
         "(get_defaults returns only freshly allocated containers). The unguarded statement is false on the pinned tree: "
         "C08_parse_object_mutates_refuted, C08_parse_object_failure_mutates_refuted, C08_dump_tuple_refuted, "
-        "C08_get_defaults_shares_refuted (two open findings). For the tree with the two fix patches the same model with "
+        "C08_get_defaults_shares_refuted (two findings, fixed in /repo since). For the tree with the two fix patches the same model with "
         "recreate_branches rebuilding tuples and parse_object copying its argument satisfies the statement with NO guard: "
         "C08_fixed_frame, C08_fixed_frame_loc, C08_fixed_brackets_restore, C08_fixed_defaults_untouched. Second sentence of the "
-        "property (coq/Model/C08Inst.v: configurations are trees of scalars, lists and class_path/init_args specs of any size, "
-        "identity = the n-th object built): C08_instantiate_twice_fresh / _pairwise_distinct / _spec (two instantiate_classes calls "
-        "build one object per spec each, all pairwise distinct, none pre-existing), C08_cached_instantiate_refuted. Correspondence: one real "
+        "property (coq/Model/C08Inst.v: configurations are trees of scalars, lists, tuples and specs listing all parameters of their "
+        "class, those coming from signature / parser defaults marked; identity = the n-th object built): "
+        "C08_instantiate_twice_fresh / _pairwise_distinct / _spec (two instantiate_classes calls build one object per spec each, all "
+        "pairwise distinct, none pre-existing - on the current tree under the guard 'no default-derived spec below a tuple', with "
+        "fixes/C08-default-below-tuple-shared.patch without guard), C08_cached_instantiate_refuted, "
+        "C08_default_below_tuple_shared_refuted (open finding: below a tuple lazy_instance signature defaults are not expanded into "
+        "specs, every instantiation gets the one live default object). Correspondence: one real "
         "API call per case on seeded random parsers/arguments (~30% failing calls), deep identity-aware snapshots of every argument "
         "and declared default, get_defaults(), cwd, os.environ, argparse.Namespace and the context variables before/after; Coq "
         "computes model agreement (outcome, write set, aliasing of the result) and spec agreement per case; plus 'instantiate twice' "
@@ -77,7 +86,8 @@ META = {
         "defaults, specs up to three tuple levels deep) where the identities of all built objects are compared with the model; plus "
         "C08_regions_restore / C08_aux_brackets_restore (any nest of try/finally regions around a body that leaves the globals alone "
         "restores them) tied exhaustively to parse_args --cfg, default_config_files, list files and parse_env on plain, symlinked "
-        "and relative directories, succeeding and failing."),
+        "and relative directories, succeeding and failing, with action.default of every declared action (value, type, identity) and "
+        "get_defaults() without the default config files compared before/after."),
     "level_note": (
         "Partial: not modelled and not proved - the heap effects of parse_args on argument-string lists, format_help, config files "
         "and env parsing (only their try/finally skeleton is modelled; argv list / environ dict unchanged is observed), links, "
@@ -311,6 +321,55 @@ def fixed_cases():
 
 
 # ---- "instantiate twice" cases ----------------------------------------------------------------------
+# The signatures of tie/impl/c08_classes.py (checked by the runner): parameters in order with their defaults; a dict is a
+# lazy_instance(...) default, REQ a parameter without default.
+REQ = "<required>"
+SIG = {
+    "Unit": [],
+    "Leaf": [("x", 1)],
+    "Open": [("x", 1)],
+    "Node": [("child", REQ), ("n", 0)],
+    "Pair": [("left", {"cls": "Leaf", "args": {"x": 5}}), ("right", None), ("n", 2)],
+    "Bag": [("elems", REQ), ("n", 0)],
+    "Holder": [("extra", {"cls": "Leaf", "args": {"x": 4}}), ("n", 0)],       # extra: Any
+    "Deep": [("inner", {"cls": "Pair", "args": {"n": 7}})],
+}
+
+
+def expect(v, dflt=False):
+    """what the configuration value v stands for: every spec with ALL parameters of its class, those not written in the
+    configuration taken from the signature default (marked from_default). Independent of what the parser makes of it."""
+    if isinstance(v, dict):
+        children = []
+        for name, d in SIG[v["cls"]]:
+            if name in v["args"]:
+                children.append([name, expect(v["args"][name], dflt)])
+            else:
+                children.append([name, expect(d, True)])
+        return {"spec": [v["cls"], dflt, children]}
+    if isinstance(v, list):
+        return {"list": [expect(x, dflt) for x in v]}
+    return {"i": v if isinstance(v, int) and not isinstance(v, bool) else 0}
+
+
+def expect_decl(kind, given, default):
+    if given is None:
+        return {"i": 0} if default is None else expect(default, True)
+    if kind == "tupbase":
+        return {"tup": [expect(given[0]), expect(given[1])]}
+    if kind == "tuptupbase":
+        return {"tup": [{"tup": [expect(given[0][0]), expect(given[0][1])]}, {"i": 0}]}
+    if kind == "tup3base":
+        (a, b), n = given
+        return {"tup": [{"tup": [{"tup": [expect(a[0]), expect(a[1])]}, expect(b)]}, expect(n)]}
+    return expect(given)
+
+
+def with_expect(case):
+    case["expect"] = [expect_decl(kind, case["cfg"].get(key), d) for key, kind, d in case["decls"]]
+    return case
+
+
 def gen_spec(rng, depth):
     r = rng.random()
     if depth <= 0 or r < 0.3:
@@ -328,15 +387,22 @@ def gen_spec(rng, depth):
         if rng.random() < 0.5:
             args["right"] = gen_spec(rng, depth - 1)
         return {"cls": "Pair", "args": args}               # what is not given comes from the signature defaults
-    if r < 0.9:
+    if r < 0.85:
         return {"cls": "Bag", "args": {"elems": [gen_spec(rng, depth - 1) for _ in range(rng.randint(0, 3))]}}
+    if r < 0.93:
+        return {"cls": "Holder", "args": ({} if rng.random() < 0.7 else {"extra": gen_spec(rng, depth - 1)})}   # Any-typed parameter
     return {"cls": "Deep", "args": ({} if rng.random() < 0.7 else {"inner": gen_spec(rng, depth - 1)})}
 
 
 def inst_case(rng):
     decls, cfg = [], {}
     for key in PKEYS[: rng.randint(1, 4)]:
-        kind = rng.choice(["base", "base", "optbase", "listbase", "tupbase", "tuptupbase", "tup3base"])
+        kind = rng.choice(["base", "base", "optbase", "listbase", "tupbase", "tuptupbase", "tup3base", "anybase"])
+        if kind == "anybase":                              # add_argument(type=Any, default=lazy_instance(...)), mostly left at the default
+            decls.append([key, kind, gen_spec(rng, 1)])
+            if rng.random() < 0.3:
+                cfg[key] = gen_spec(rng, 1)
+            continue
         if kind == "tupbase":                              # Tuple[Base, int]
             decls.append([key, kind, None])
             cfg[key] = [gen_spec(rng, rng.randint(0, 2)), rng.randint(0, 9)]
@@ -358,12 +424,12 @@ def inst_case(rng):
             cfg[key] = [gen_spec(rng, 2) for _ in range(rng.randint(0, 3))]
         elif given or (kind == "base" and dflt is None):
             cfg[key] = gen_spec(rng, rng.randint(0, 3))
-    return {"kind": "inst", "decls": decls, "cfg": cfg}
+    return with_expect({"kind": "inst", "decls": decls, "cfg": cfg})
 
 
 def fixed_inst_cases():
     leaf = {"cls": "Leaf", "args": {"x": 3}}
-    return [
+    return [with_expect(c) for c in [
         {"kind": "inst", "decls": [["a", "base", None]], "cfg": {"a": leaf}},
         {"kind": "inst", "decls": [["a", "base", None], ["b", "base", None]], "cfg": {"a": {"cls": "Unit", "args": {}}, "b": {"cls": "Unit", "args": {}}}},
         {"kind": "inst", "decls": [["a", "base", None]], "cfg": {"a": {"cls": "Pair", "args": {}}}},          # signature default
@@ -373,11 +439,16 @@ def fixed_inst_cases():
         {"kind": "inst", "decls": [["a", "tuptupbase", None]], "cfg": {"a": [[leaf, 5], "x"]}},               # spec two tuple levels deep
         {"kind": "inst", "decls": [["a", "tuptupbase", None]],
          "cfg": {"a": [[{"cls": "Open", "args": {"x": 2}, "dict_kwargs": {"extra": 3}}, 5], "x"]}},
-        {"kind": "inst", "decls": [["a", "tup3base", None]], "cfg": {"a": [[[7, {"cls": "Pair", "args": {}}], [leaf]], 5]}},
-    ]
+        {"kind": "inst", "decls": [["a", "tup3base", None]], "cfg": {"a": [[[7, {"cls": "Node", "args": {"child": leaf}}], [leaf]], 5]}},
+        # lazy_instance defaults on Any-typed hints: parser argument and signature parameter, left at the default
+        {"kind": "inst", "decls": [["a", "anybase", leaf]], "cfg": {}},
+        {"kind": "inst", "decls": [["a", "base", None]], "cfg": {"a": {"cls": "Holder", "args": {}}}},
+        # a class with a lazy_instance signature default, given below a tuple (finding default-below-tuple-shared)
+        {"kind": "inst", "decls": [["a", "tupbase", None]], "cfg": {"a": [{"cls": "Pair", "args": {}}, 1]}},
+    ]]
 
 
-AUX_ENTRIES = ["args_cfg", "dflt_get_defaults", "dflt_help", "dflt_parse_args", "list_file", "parse_env"]
+AUX_ENTRIES = ["args_cfg", "dflt_get_defaults", "dflt_help", "dflt_parse_args", "list_file", "parse_env", "dflt_print_help"]
 
 
 def aux_cases():
@@ -425,7 +496,8 @@ def observe(all_cases):
     if idx_i:
         ics = [all_cases[n] for n in idx_i]
         nproc = 4
-        res = fw.run_impl_parallel("c08_inst.py", [{"cases": ics[i::nproc]} for i in range(nproc)])
+        sigs = {c: [n for n, _ in ps] for c, ps in SIG.items()}
+        res = fw.run_impl_parallel("c08_inst.py", [{"cases": ics[i::nproc], "signatures": sigs} for i in range(nproc)])
         got = [None] * len(ics)
         for k, r in enumerate(res):
             got[k::nproc] = r
@@ -535,8 +607,8 @@ def g_ival(t):
     if k == "i":
         return "(IInt %s)" % g_Z(x)
     if k == "spec":
-        return "(ISpec %s %s)" % (g_str(x[0]), g_ivals(x[1]))
-    return "(IList %s)" % g_ivals(x)
+        return "(ISpec %s %s %s)" % (g_bool(x[1]), g_str(x[0]), g_ivals([c for _, c in x[2]]))
+    return "(%s %s)" % ("ITup" if k == "tup" else "IList", g_ivals(x))
 
 
 def g_ivals(xs):
@@ -548,12 +620,13 @@ def g_ivals(xs):
 
 def term(case, obs):
     if is_aux(case):
-        return "AuxCase {| a_entry := %s; a_fails := %s; a_ok := %s; a_globals := %s; a_args_same := %s |}" % (
-            fw.g_N(AUX_ENTRIES.index(case["entry"])), g_bool(case["fail"]), g_bool(obs["ok"]),
-            g_list([g_bool(b) for b in obs["globals"]], "bool"), g_bool(obs["args_same"]))
+        return ("AuxCase {| a_entry := %s; a_fails := %s; a_ok := %s; a_globals := %s; a_args_same := %s; "
+                "a_defaults_same := %s |}" % (
+                    fw.g_N(AUX_ENTRIES.index(case["entry"])), g_bool(case["fail"]), g_bool(obs["ok"]),
+                    g_list([g_bool(b) for b in obs["globals"]], "bool"), g_bool(obs["args_same"]), g_bool(obs["defaults_same"])))
     if is_inst(case):
         return ("InstCase {| i_ok := %s; i_c := %s; i_cfg := %s; i_ids1 := %s; i_ids2 := %s; i_cfg_same := %s |}" % (
-            g_bool(obs["ok"]), g_nat(obs["c"]), g_ivals(obs["tree"]["list"]), g_list([g_nat(i) for i in obs["ids1"]], "nat"),
+            g_bool(obs["ok"]), g_nat(1), g_ivals(case["expect"]), g_list([g_nat(i) for i in obs["ids1"]], "nat"),
             g_list([g_nat(i) for i in obs["ids2"]], "nat"), g_bool(obs["cfg_same"])))
     return "HeapCase " + heap_term(case, obs)
 
@@ -593,11 +666,13 @@ def describe(case, obs):
         return {"entry point": case["entry"], "directory of the file reached": case["dir"], "made to fail midway": case["fail"],
                 "returned": obs["ok"], "exception": obs.get("exc", ""),
                 "globals_changed": [GLOBAL_NAMES[i] for i, b in enumerate(obs["globals"]) if not b],
-                "argument object (argv list / environ dict) unchanged": obs["args_same"]}
+                "argument object (argv list / environ dict) unchanged": obs["args_same"],
+                "declared defaults (action.default per action; get_defaults() without default config files) unchanged": obs["defaults_same"]}
     if is_inst(case):
         return {"parser(key,kind,default spec)": case["decls"], "configuration given": case["cfg"],
-                "parsed configuration as spec tree": obs["tree"], "objects of the family alive before": obs["c"],
-                "identities built by call 1 (post-order)": obs["ids1"], "identities built by call 2": obs["ids2"],
+                "expected objects (spec: class, from_default, parameters)": case["expect"],
+                "identities at the spec positions after call 1 (post-order; 0 = an object that existed before, fresh ones 1,2,..)": obs["ids1"],
+                "identities after call 2": obs["ids2"],
                 "configuration unchanged": obs["cfg_same"], "returned": obs["ok"], "exception": obs.get("exc", "")}
     changed = [n for n, o in enumerate(obs["after"]) if not unchanged(case["heap"][n], o)]
     return {"parser(key,type,default)": case["parser"], "objects_before(loc->content; r=reference to loc)": case["heap"],
@@ -629,7 +704,8 @@ def shrink(case):
         for i in range(len(case["decls"])):
             if len(case["decls"]) > 1:
                 k = case["decls"][i][0]
-                yield dict(case, decls=case["decls"][:i] + case["decls"][i + 1:], cfg={a: b for a, b in case["cfg"].items() if a != k})
+                yield with_expect(dict(case, decls=case["decls"][:i] + case["decls"][i + 1:],
+                                       cfg={a: b for a, b in case["cfg"].items() if a != k}))
         return
     op = case["op"]
     for name in ("a", "b"):
